@@ -34,8 +34,8 @@ def substring_cases(tier, rng):
             for i in range(-2, L + 3):
                 okm = i >= 1 and n >= 0 and i <= L and i - 1 + n <= L
                 ent.append('MID("%s", %s, %s)' % (s, gen.neg_lit(i), gen.neg_lit(n))); exp.append(('val', '"%s"' % s[i - 1:i - 1 + n]) if okm else ('err',))
-    for i in range(0, len(ent), 3000):
-        cases.append(Case(mode='repl', stdin=gen.join(ent[i:i + 3000]), meta=dict(gen='substrings', expect=exp[i:i + 3000], sample=i == 0)))
+    for i in range(0, len(ent), 600):
+        cases.append(Case(mode='repl', stdin=gen.join(ent[i:i + 600]), meta=dict(gen='substrings', expect=exp[i:i + 600], sample=i == 0)))
     return cases
 
 def char_cases(tier):
@@ -78,7 +78,7 @@ def numeral_cases(tier, rng):
         ent.append('INTEGER("%s")' % bad); exp.append(('val', '0'))
     for bad in ['abc', '12x', '1.2.3', '1e5', '-1', ' 1', 'x']:
         ent.append('IS_NUM("%s")' % bad); exp.append(('val', 'FALSE'))
-    return [Case(mode='repl', stdin=gen.join(ent[i:i + 3000]), meta=dict(gen='numerals', expect=exp[i:i + 3000], sample=i == 0)) for i in range(0, len(ent), 3000)]
+    return [Case(mode='repl', stdin=gen.join(ent[i:i + 600]), meta=dict(gen='numerals', expect=exp[i:i + 600], sample=i == 0)) for i in range(0, len(ent), 600)]
 
 def real_lit(s):
     if s.startswith('.'): s = '0' + s
@@ -114,7 +114,17 @@ def roundtrip_cases(tier, rng):
         exp.append(('none',))
         ent.append('ok'); exp.append(('val', 'TRUE'))
     ent += ['RAND(0)', 'RAND(0 - 5)']; exp += [('val', '0.0'), ('val', '0.0')]
-    return [Case(mode='repl', stdin=gen.join(['DECLARE ok : BOOLEAN', 'DECLARE rv : REAL'] + ent), limits=dict(steps=50000), meta=dict(gen='roundtrip-int-rand', expect=[('none',), ('none',)] + exp, multi=True))]
+    # sessions of at most ~600 entries: the single-line probes (one expectation each) are cut into sessions of their own, the
+    # multi-line tail (FOR loops, which count as several input lines per expectation) stays one session
+    first_multi = ent.index('ok <- TRUE')
+    head_e, head_x = ent[:first_multi], exp[:first_multi]
+    assert len(head_e) == len(head_x)
+    cases = []
+    for i in range(0, len(head_e), 600):
+        cases.append(Case(mode='repl', stdin=gen.join(head_e[i:i + 600]), limits=dict(steps=50000), meta=dict(gen='roundtrip-int-rand', expect=head_x[i:i + 600], sample=i == 0)))
+    cases.append(Case(mode='repl', stdin=gen.join(['DECLARE ok : BOOLEAN', 'DECLARE rv : REAL'] + ent[first_multi:]), limits=dict(steps=50000),
+                      meta=dict(gen='roundtrip-int-rand', expect=[('none',), ('none',)] + exp[first_multi:], multi=True)))
+    return cases
 
 def generate(tier, rng):
     cases = substring_cases(tier, rng) + char_cases(tier) + numeral_cases(tier, rng) + roundtrip_cases(tier, rng)
